@@ -3,6 +3,7 @@ from wiregen import *
 import math
 
 ID = "C16"
+THEOREM_MODULES = ["SimVerif.Props.C16", "SimVerif.Tie.Feat"]
 THEOREM_MODULE = "SimVerif.Props.C16"
 NONTRIVIAL_FLAGS = {"partial-block", "multi-block", "diff-len", "diff-blocks", "small-magnitude", "negative-dot", "empty"}
 RULE = ("`feat pack` for every length 0..130 (several value sets each) and `feat dist a b` for pairs of lengths over every residue mod 8 "
